@@ -68,6 +68,8 @@ func init() {
 	})
 	wrap("C17", func(c *core.Ctx) {
 		untrackedTimers(c, "R4")
+		// "Stop stops": a goroutine that posts to a bounded queue only it drains never gets to its stop event
+		shareFrom(c, "C18", "R4", func(o *core.Obligation) bool { return has(o, "R1", "/R1/self-wait") }, 0, "self-waits")
 	})
 	wrap("C19", func(c *core.Ctx) { flagsNeverRefused(c, "R3") })
 	wrap("C20", func(c *core.Ctx) { configDecodedPlainly(c, "R3") })
